@@ -692,8 +692,14 @@ class DynamicSlicer:
 
         # Check nonlocal variables
         elif name in MODIFY_DEREF_NAMES:
+            # A use is recorded with the code objects from the using one up to the owner of
+            # the cell.  The store may happen in a sibling closure (``nonlocal``), which is
+            # not on that chain: what identifies the variable is the owner of its cell.
             complete_cover = self._check_scope_for_def(
-                context.nonlocal_var_uses, argument, code_object_id, operator.contains
+                context.nonlocal_var_uses,
+                argument,
+                self._cell_owner(code_object_id, argument),
+                operator.contains,
             )
 
         # Check IMPORT_NAME instructions
@@ -709,6 +715,23 @@ class DynamicSlicer:
             raise ValueError("Instruction opcode can not be analyzed for definitions.")
 
         return complete_cover
+
+    def _cell_owner(self, code_object_id: int, argument: int | str | None) -> int:
+        """Provides the code object that owns the cell of a captured variable.
+
+        Args:
+            code_object_id: The code object that accesses the variable
+            argument: The name of the variable
+
+        Returns:
+            The id of the closest enclosing code object that has the variable as a cell
+        """
+        current = code_object_id
+        while True:
+            meta = self._known_code_objects[current]
+            if argument in meta.code_object.co_cellvars or meta.parent_code_object_id is None:
+                return current
+            current = meta.parent_code_object_id
 
     @staticmethod
     def _check_scope_for_def(
